@@ -1,0 +1,18 @@
+//go:build verif
+
+package app
+
+import (
+	"sync"
+
+	"github.com/nuetzliches/hookaido/internal/verifhook"
+)
+
+// stateMutex is sync.RWMutex plus a verification point after every write-unlock,
+// i.e. at every instant at which other goroutines can observe a changed runtimeState.
+type stateMutex struct{ sync.RWMutex }
+
+func (m *stateMutex) Unlock() {
+	m.RWMutex.Unlock()
+	verifhook.Point("state.write_unlocked")
+}
